@@ -214,6 +214,24 @@ def check(case):
         stress.append('segment<10-radii')
     for x in set(stress):
         labels.append('stress:' + x)
+    # a fourth class, attributed only together with the cause-removal test below: a junction sharper than 60 degrees
+    # of wires thicker than 1e-4 wavelength (the exact-kernel criterion of the method at sharp junctions, cf. the
+    # C06 finding F-C06c)
+    acute_thick = False
+    lam_ = 299.8 / case['f']
+    for j in topo.junctions:
+        if len(j) >= 2 and max(topo.objs[w]['r'] for (w, _) in j) > 1e-4 * lam_:
+            dirs_ = []
+            for (w, e_) in j:
+                sg_ = topo.objs[w]['segs']
+                d_ = (sg_[1] - sg_[0]) if e_ == 0 else (sg_[-2] - sg_[-1])
+                dirs_.append(d_ / np.linalg.norm(d_))
+            for a_ in range(len(dirs_)):
+                for b_ in range(a_):
+                    if dirs_[a_] @ dirs_[b_] > 0.5:
+                        acute_thick = True
+    if acute_thick:
+        labels.append('stress:acute-thick-junction')
     cls = ''
     bad = (-imb > margin) if env == 'real' else (abs(imb) > margin)
     if bad and any(l['kind'] == 'ins' for l in case['loads']):
@@ -240,9 +258,11 @@ def check(case):
             pass
     if not cls and stress and abs(imb) <= 0.25 * app:
         cls = ':within-25-percent:' + '+'.join(sorted(set(stress)))
-    elif not cls and stress and bad:
-        # beyond the cap: attributed to the thin-wire limit only if the same structure with thin wires (all radii
-        # <= 1e-5 wavelength, equal at the junctions) balances within 5 %
+    elif not cls and (stress or (acute_thick and abs(imb) <= 0.25 * app)) and bad:
+        # beyond the cap (and always for the acute-thick-junction class): attributed to the thin-wire limit only if
+        # the same structure with thin wires (all radii <= 1e-5 wavelength, equal at the junctions) balances within 5 %
+        if not stress:
+            stress = ['acute-thick-junction']
         try:
             thin = {k_: v_ for k_, v_ in case.items()}
             thin['objs'] = [dict(o_) for o_ in case['objs']]
@@ -260,7 +280,9 @@ def check(case):
                 cls = ':within-25-percent:thin-version-balances:' + '+'.join(sorted(set(stress)))
         except Exception:
             pass
-    if bad and not cls and abs(imb) <= 0.05 * app and not any(l['kind'] == 'ins' for l in case['loads']):
+    # (cap of what is attributed to F-C01c: 10 %.  Observed 8.1 % for a grounded half loop of 3 + 3 segments of lambda / 27,
+    # radius 3.4e-4 lambda, apex 55 degrees, fed on its ground pulse; 0.4 % with 6 + 6 segments, 0.2 % with thin wires)
+    if bad and not cls and abs(imb) <= 0.10 * app and not any(l['kind'] == 'ins' for l in case['loads']):
         # classification only (finding F-C01c): discretisation error at the coarse end of the documented rules.  The
         # same antenna with every object divided into twice as many (equal) segments, sources and lumped loads kept at
         # their positions: attributed to the discretisation only if the imbalance falls to less than half
